@@ -7,7 +7,7 @@ CONSTANTS
   CsvOK = {"K1", "K2"}
   CsvBad = {"KMISSING"}
   Txns = {"t1", "t2", "t3", "t4"}
-  Exprs = {"e1", "e2", "e3", "e4", "e5", "e6", "e7", "e8", "e9", "e10", "e11", "e12", "e13", "e14"}
+  Exprs = {"e1", "e2", "e3", "e4", "e5", "e6", "e7", "e8", "e9", "e10", "e11", "e12", "e13", "e14", "e15", "e16"}
   Impl = "intended"
   WithClear = FALSE
   WithObj = TRUE
